@@ -30,12 +30,15 @@ class EventLoopThread : noncopyable
   EventLoopThread(const ThreadInitCallback& cb = ThreadInitCallback(),
                   const string& name = string());
   ~EventLoopThread();
+  // Returns the loop of the new thread, or NULL if that loop has already been
+  // quit and destroyed (e.g. the ThreadInitCallback called quit()).
   EventLoop* startLoop();
 
  private:
   void threadFunc();
 
   EventLoop* loop_ GUARDED_BY(mutex_);
+  bool finished_ GUARDED_BY(mutex_);  // threadFunc has left loop() and cleared loop_
   bool exiting_;
   Thread thread_;
   MutexLock mutex_;
